@@ -102,6 +102,7 @@ def run(ctx):
                f"beta={T.show(nk.get('beta')) if nk.get('beta') else 'unset'}", disc="beta")
     for F in ("dtype", "parameters"):
         ctx.decide(nk.get(F) == self_attr(F), "C09.meta", construct, loc2, f"{F} carried", f"{F} not carried to the resampled population", disc=F)
+    label_rule(ctx)
     # the early return is only taken for an unchanged temperature at unchanged size
     if ret[0] == "phi":
         c = ret[1]
@@ -111,6 +112,43 @@ def run(ctx):
         ok = same == SELF and c in (want_c, alt)
         ctx.decide(ok, "C09.same", construct, loc_of(m), "returns self only when beta is unchanged and no size was requested",
                    f"early return {T.show(same)[:60]} taken on {T.show(c)[:160]}")
+
+
+def label_rule(ctx):
+    """The population entering the loop is labelled with the temperature the loop starts from."""
+    from .smcloop import SMC, fold_sample
+    repo = ctx.repo
+    smc = repo.cls(SMC)
+    sample = smc.methods["sample"]
+    for resumed in (False, True):
+        sf = fold_sample(repo, resumed=resumed, final=False)
+        tag = "resumed" if resumed else "fresh"
+        lp = sf.loop
+        if lp is None:
+            ctx.unknown("C09.label", sample.ident, loc_of(sample), f"[{tag}] loop not recorded")
+            continue
+        ps, pb = lp["pre"].get("samples"), lp["pre"].get("beta")
+        if not resumed:
+            lab = dict(ps[3]).get("beta") if ps is not None and ps[0] == "f" and "from_samples" in ps[1] else None
+            if ps is not None and ps[0] == "obj":
+                lab = sf.ev.heap.get((ps, "beta"))
+                for l_ in sf.ev.loops:
+                    lab = lab if lab is not None else l_.get("body_heap", {}).get((ps, "beta"))
+            ctx.decide(lab is not None and lab == pb, "C09.label", sample.ident, loc_of(sample), "[fresh] the initial population is labelled with the starting temperature",
+                       f"[fresh] the initial population is labelled beta={T.show(lab) if lab else None} but the loop starts from beta={T.show(pb) if pb else None}", disc=tag)
+        else:
+            ok = ps is not None and pb is not None and ps[0] == "s" and pb[0] == "s" and ps[1] == pb[1] and "restore_from_checkpoint" in str(ps[1][1]) \
+                and T.const_value(ps[2]) == 0 and T.const_value(pb[2]) == 1
+            ctx.decide(ok, "C09.label", sample.ident, loc_of(sample), "[resumed] the restored population and the restored temperature are used as returned by restore_from_checkpoint",
+                       f"[resumed] the population entering the loop is {T.show(ps)[:140] if ps else None}, not the restored one as labelled by restore_from_checkpoint: "
+                       "the first resampling after a resume weights by the wrong temperature move", disc=tag)
+    rfc = smc.resolve("restore_from_checkpoint")
+    from ..evalr import Evaluator
+    ev = Evaluator(repo, max_depth=1, no_inline={"aspire.samplers.base:Sampler.restore_from_checkpoint", "aspire.samples:BaseSamples.from_samples"})
+    ret = T.strip_raise(ev.run(rfc, smc))
+    ok = ret[0] == "t" and len(ret[1]) == 3 and ret[1][0][0] == "f" and "from_samples" in ret[1][0][1] and dict(ret[1][0][3]).get("beta") == ret[1][1]
+    ctx.decide(ok, "C09.label", rfc.ident, loc_of(rfc), "restore_from_checkpoint labels the restored population with the restored temperature",
+               "restore_from_checkpoint returns a population whose beta label is not the restored temperature", disc="restore")
 
 
 _S = "src/aspire/samples.py"
@@ -126,6 +164,10 @@ MUTANTS = [
     M("old temperature kept", _S, "log_q=self.log_q[idx],\n            beta=beta,", "log_q=self.log_q[idx],\n            beta=self.beta,", "C09.meta"),
     M("fresh generator always", _S, "if rng is None:\n            rng = np.random.default_rng()\n        if n_samples is None:", "rng = np.random.default_rng()\n        if n_samples is None:", "C09.rng"),
     M("early return ignores size", _S, "if beta == self.beta and n_samples is None:", "if beta == self.beta:", "C09.same"),
+]
+MUTANTS += [
+    M("restored population relabelled as beta 0", "src/aspire/samplers/smc/base.py", "samples, beta, iterations = self.restore_from_checkpoint(\n                resume_from\n            )", "samples, beta, iterations = self.restore_from_checkpoint(\n                resume_from\n            )\n            samples = SMCSamples.from_samples(samples, xp=self.xp, beta=0.0, dtype=self.dtype)", "C09.label"),
+    M("weights only for the default size", _S, "log_w = self.log_weights(beta)\n        w = to_numpy(self.xp.exp(log_w - logsumexp(log_w)))\n        idx = rng.choice(len(self.x), size=n_samples, replace=True, p=w)", "w = None\n        if n_samples == len(self.x):\n            log_w = self.log_weights(beta)\n            w = to_numpy(self.xp.exp(log_w - logsumexp(log_w)))\n        idx = rng.choice(len(self.x), size=n_samples, replace=True, p=w)", "C09.p"),
 ]
 NEUTRALS = [
     M("generator fallback written with or", _S, "if rng is None:\n            rng = np.random.default_rng()\n        if n_samples is None:", "rng = rng or np.random.default_rng()\n        if n_samples is None:"),
